@@ -4,6 +4,8 @@ CONSTANTS
   W = 80
   H = 25
   D = 30
+  N = 12
+  Seed = 1
   Modes = {0, 1, 2}
 INVARIANT Emit
 CHECK_DEADLOCK FALSE
